@@ -185,10 +185,24 @@ impl Metainfo {
             },
         };
 
+        let announce = Self::find_announce(dict)?;
+
+        // Piece length is used as divisor
+        let piece_length = Self::find_piece_length(dict)?;
+        if piece_length == 0 {
+            return Err(Error::MetaInvalidU64("piece length"));
+        }
+
+        // Total length of all files must be representable
+        files
+            .iter()
+            .try_fold(0u64, |sum, file| sum.checked_add(file.length))
+            .ok_or(Error::MetaInvalidU64("length"))?;
+
         let metainfo = Metainfo {
-            announce: Self::find_announce(dict)?,
+            announce,
             name,
-            piece_length: Self::find_piece_length(dict)?,
+            piece_length,
             pieces: Self::find_pieces(dict)?,
             files,
             multi_file: length.is_none(),
